@@ -275,3 +275,33 @@ Proof.
   - reflexivity.
   - intros l e w o d. destruct (Bool.eqb (anonymize_of l) ft); reflexivity.
 Qed.
+
+(* ------------------------------------------------------------------ the queue bound, over the generated code *)
+Lemma exec_keeps_bound_l (m : M unit) s s' outs : exec m s = Ok (s', outs) ->
+  exists g, m (mkGS (ep_of s) (w_of s) [] []) = Ok (tt, g) /\ e_qmax (g_ep g) = Some SEND_QUEUE_MAXLEN.
+Proof.
+  unfold exec. destruct (m _) as [[[] g]|e]; [|discriminate].
+  unfold bound_kept. destruct (e_qmax (g_ep g)) as [n|] eqn:Eq; [|discriminate].
+  destruct (n =? SEND_QUEUE_MAXLEN) eqn:En; [|discriminate]. intros _. exists g. split; [reflexivity|].
+  apply Z.eqb_eq in En. subst n. exact Eq.
+Qed.
+
+Lemma gen_queue_bounded_from_l : forall ops s r sf,
+  Z.of_nat (length (queue s)) <= SEND_QUEUE_MAXLEN -> run_gen s ops = Ok (r, sf) ->
+  Z.of_nat (length (queue sf)) <= SEND_QUEUE_MAXLEN /\ Forall (fun x => snd (fst x) <= SEND_QUEUE_MAXLEN) r.
+Proof.
+  induction ops as [|o tl IH]; intros s r sf Hq H; cbn [run_gen] in H.
+  - inversion H; subst. split; [exact Hq|constructor].
+  - destruct (step_gen s o) as [[s1 outs]|e] eqn:Es; [|discriminate].
+    destruct (run_gen s1 tl) as [[r1 sf1]|e] eqn:Er; [|discriminate]. inversion H; subst. clear H.
+    pose proof (step_gen_inv _ _ _ _ Es) as [Hs1 _].
+    assert (Hq1 : Z.of_nat (length (queue s1)) <= SEND_QUEUE_MAXLEN) by (subst s1; apply step_queue_len; exact Hq).
+    destruct (IH s1 r1 sf Hq1 Er) as [Hf Hr]. split; [exact Hf|]. constructor; [exact Hq1|exact Hr].
+Qed.
+
+Lemma gen_queue_bounded_l ops r sf : run_gen init ops = Ok (r, sf) ->
+  Z.of_nat (length (queue sf)) <= 100 /\ Forall (fun x => snd (fst x) <= 100) r.
+Proof.
+  intros H. change 100 with SEND_QUEUE_MAXLEN. eapply gen_queue_bounded_from_l; [|exact H].
+  pose proof maxlen_pos. cbn [init queue length]. lia.
+Qed.
